@@ -228,6 +228,8 @@ def expand_trig(c, p, bounds):
         ab = poly_bound(alg, a, bounds)
         if ab is None or ab > Fraction(1, 10):
             continue
+        if len(a) > 3 or len(p) > 400:
+            continue       # substituting a 9th-degree series in a many-term argument explodes; |sin|,|cos| <= 1 is used instead
         key = ("taylor", sn)
         if key not in c.__dict__.setdefault("_taylor_cache", {}):
             rs = alg.new_gen(("taylor_rem_sin", a))
